@@ -47,6 +47,8 @@ var plans = map[string]*plan{
 		Rule: "3 of 4 cases: every selected checker applied in a seeded order (name, reverse, shuffle) to the same tree of one corpus package, with a fingerprint of syntax trees, types.Info, shared context, checker registry and astcast sentinels after every Check, and diagnostics (with fixes) compared with the run-alone reference - the first 2 rounds sweep all registered checkers over all corpus packages; 1 of 4 cases: the real CLI under a non-serial seeded schedule with fingerprints taken at context switches; distinct = distinct hash of (flags, visits, order | hand-over sequence); non-trivial = >= 2 checkers on one tree with >= 1 diagnostic, or >= 1 interleaving switch with >= 1 switch-point fingerprint"},
 	"C18": {Race: false, Quick: 1600, Thorough: 60000, Procs: 16, XProc: 32, Level: "fault_enumeration",
 		Rule: "a case is one rule-file scenario on the simulated disk: 1-4 files, each valid / unreadable (EIO, EISDIR, EACCES, vanished after Glob) / torn at a group boundary / torn inside a group / empty / DSL violation / unloadable import, x patterns (paths and globs, spacing, order, no-match) x failOn (subsets, empty entries, unknown values) x legacy failOnError x enable/disable lists over names, tags, #experimental, unknown entries, x 1-2 constructions; even run indices are fault-free, odd ones fault-injecting; distinct = distinct scenario text; non-trivial = a fault fired, an init error is demanded, or a group filter is in play"},
+	"C19": {Race: false, Quick: 400, Thorough: 20000, Procs: 16, XProc: 16, Level: "fault_enumeration",
+		Rule: "(a) a case is one simulated driver process of the go/analysis analyzer: an injected configuration fault (malformed -go, unknown ruleguard failOn, rules pattern without match, empty selection, unparsable parameter) x 1..6 passes x sequential in a seeded order or parallel under a seeded schedule; (b) a case is one real process of go-critic / gocritic / go-critic-analysis / gocritic-analysis on a generated workspace with a configuration fault (both flag dialects) or a workspace fault (torn write, lost write, flipped identifier, mixed package clauses) at package counts 1 and n; distinct = distinct (fault, flags, pass count, order, schedule | binary, args, workspace); every case injects a fault, so every case is non-trivial"},
 }
 
 func die2(format string, args ...any) {
@@ -184,6 +186,25 @@ func (c *checkCtx) check() int {
 		fmt.Fprintf(os.Stderr, "gcsim: HARNESS: expected %d results, have %d\n", total, len(bt.Results))
 		return 2
 	}
+	if c.ID == "C19" {
+		// second engine: the real front-end binaries on faulted configurations and workspaces
+		if err := buildFrontends(c.Build); err != nil {
+			fmt.Fprintln(os.Stderr, "gcsim: build trouble:", err)
+			return 2
+		}
+		n := 48
+		if c.Tier == "thorough" {
+			n = 1200
+		}
+		if s := os.Getenv("GCSIM_FE_RUNS"); s != "" {
+			n, _ = strconv.Atoi(s)
+		}
+		t1 := time.Now()
+		fe := c.runFECases(n, nil)
+		fmt.Printf("gcsim: %d front-end cases (%d real processes) in %.1fs\n", n, 2*n, time.Since(t1).Seconds())
+		bt.Results = append(bt.Results, fe...)
+		total += n
+	}
 
 	// same-seed cross-process leg: determinism of the simulator itself, and
 	// (for C02) of go-critic across processes
@@ -225,7 +246,14 @@ func (c *checkCtx) check() int {
 			exit = 1
 			continue // reported in the evidence; the first six get replay files
 		}
-		if rp.Run.Config != nil {
+		if rp.Run.Config != nil && rp.Run.Config.Kind == "frontend-process" {
+			// one real process pair is already minimal; confirm by running it again
+			var fc feCase
+			json.Unmarshal(rp.Run.Config.Extra, &fc)
+			for _, r := range c.runFECases(1, &fc) {
+				rp.Confirmed = sameViolation(r, rp.Vio)
+			}
+		} else if rp.Run.Config != nil {
 			minimised++
 			c.minimiseAndConfirm(rp, minimised <= 3)
 		}
@@ -403,6 +431,24 @@ func (c *checkCtx) replay(path string) int {
 	}
 	if err := json.Unmarshal(b, &rf); err != nil || rf.Config == nil {
 		die2("bad replay file %s: %v", path, err)
+	}
+	if rf.Config.Kind == "frontend-process" {
+		if err := buildFrontends(c.Build); err != nil {
+			fmt.Fprintln(os.Stderr, "gcsim: build trouble:", err)
+			return 2
+		}
+		var fc feCase
+		json.Unmarshal(rf.Config.Extra, &fc)
+		for _, r := range c.runFECases(1, &fc) {
+			for _, v := range r.Violations {
+				if v.Class == rf.Violation.Class {
+					fmt.Printf("VIOLATION property=%s replay=%s\n  reproduced: class=%s identity=%s\n  %s\n", c.ID, path, v.Class, v.Identity, short(v.Detail, 1500))
+					return 1
+				}
+			}
+		}
+		fmt.Printf("gcsim: replay of %s did not reproduce class %s on this tree\n", path, rf.Violation.Class)
+		return 0
 	}
 	res, herr := c.execConfigs([]simapi.RunConfig{*rf.Config}, "replay")
 	if herr != "" {
